@@ -31,7 +31,7 @@ fn feed<'a>(dec: &mut Decoder<'a>, piece: &'a [u8], fixed: u8) -> bool {
 fn dec_vs_ref<const L: usize>(c1: usize, method_fixed: u8, witness: bool) {
     let (a, b) = hcobs::verif_hooks::limits();
     let bytes: [u8; L] = kani::any();
-    let exp = ref_decode(&bytes, L, a, b);
+    let exp = ref_decode::<L>(&bytes, L, a, b);
     let mut dec = Decoder::new();
     let mut ok = feed(&mut dec, &bytes[..c1], method_fixed);
     if ok {
@@ -78,7 +78,7 @@ macro_rules! dec_proofs {
     ($($name:ident = ($l:expr, $c1:expr, $m:expr, $w:expr);)*) => {
         $(
             #[kani::proof]
-            #[kani::unwind(26)]
+            #[kani::unwind(8)]
             fn $name() {
                 dec_vs_ref::<$l>($c1, $m, $w)
             }
@@ -87,17 +87,19 @@ macro_rules! dec_proofs {
 }
 
 dec_proofs! {
-    dec_l1 = (1, 1, 3, false);
-    dec_l2_c1 = (2, 1, 3, false);
-    dec_l3_c1 = (3, 1, 3, false);
-    dec_l3_c2 = (3, 2, 3, false);
-    dec_l4_c1 = (4, 1, 3, false);
-    dec_l4_c2 = (4, 2, 3, false);
-    dec_l4_c3 = (4, 3, 3, false);
-    dec_l4_c2_witness = (4, 2, 3, true);
-    dec_l5_c2 = (5, 2, 3, false);
-    dec_l5_c3 = (5, 3, 3, false);
-    dec_l6_c3 = (6, 3, 3, false);
+    dec_l1_copy = (1, 1, 1, false);
+    dec_l2_c1_copy = (2, 1, 1, false);
+    dec_l3_c1_copy = (3, 1, 1, false);
+    dec_l3_c2_borrow = (3, 2, 0, false);
+    dec_l4_c1_copy = (4, 1, 1, false);
+    dec_l4_c2_copy = (4, 2, 1, false);
+    dec_l4_c2_copy_witness = (4, 2, 1, true);
+    dec_l4_c3_copy = (4, 3, 1, false);
+    dec_l4_c2_borrow = (4, 2, 0, false);
+    dec_l4_c2_anchored = (4, 2, 2, false);
+    dec_l5_c2_copy = (5, 2, 1, false);
+    dec_l5_c3_borrow = (5, 3, 0, false);
+    dec_l6_c3_copy = (6, 3, 1, false);
     dec_l6_c1_copy = (6, 1, 1, false);
     dec_l6_c5_copy = (6, 5, 1, false);
 }
